@@ -21,7 +21,7 @@ EXPLANATION = (
     "record_call_node < record_job_end < job.resolve/reject < _finalize_job (a duplicate arriving after removal finds the committed rows; duplicates "
     "collapsed onto the job are notified before it disappears); C06.4 in _evaluate_apply every path past the duplicate lookup reaches the "
     "registration with the same key and no return in between; C06.5 _check_pending_job returns None early only for cache_scope NONE and for "
-    "allowed_cache_results without CSE, otherwise collapses onto the pending job."
+    "allowed_cache_results without CSE (or when the pending twin records no provenance while this job does), otherwise collapses onto the pending job."
 )
 
 
@@ -156,10 +156,17 @@ def run(ctx):
                 why = "CSE not allowed"
             if (not t) and f == "pending_job":
                 why = "no pending twin"
+        # a twin that records no provenance has no call node to share with a provenance-recording duplicate (and is itself exempt from
+        # de-duplication: _evaluate_apply forces cache_scope NONE when provenance is off); accepted only in exactly this asymmetric form
+        fs = {(f, t) for f, t in facts}
+        if ("job.recording_provenance()", True) in fs and ("pending_job.recording_provenance()", False) in fs and ("pending_job", True) in fs:
+            why = "pending twin records no provenance"
+        for f, t in []:
+            pass
         if why is None and n is max(none_rets, key=lambda x: x.lineno):
             why = "no pending twin"
         allowed.append(why)
-        r5.check(why is not None, f"{m.rel}:Scheduler._check_pending_job:return-None@{n.lineno - cpj.lineno}", "an exit skips deduplication for a reason other than cache_scope NONE / CSE not allowed / no pending twin", m.rel, n.lineno, note=str(why))
+        r5.check(why is not None, f"{m.rel}:Scheduler._check_pending_job:return-None@{n.lineno - cpj.lineno}", "an exit skips deduplication for a reason other than cache_scope NONE / CSE not allowed / no pending twin / a twin without provenance", m.rel, n.lineno, note=str(why))
     t = src(cpj)
     ok = "self._pending_jobs.get((job.eval_hash, job.context_hash))" in t and "job.collapse(pending_job)" in t and "return pending_job" in t
     r5.check(ok, f"{m.rel}:Scheduler._check_pending_job:collapse", "a pending twin is not looked up by (eval_hash, context_hash), collapsed onto and returned", m.rel, cpj.lineno)
